@@ -870,6 +870,90 @@ print(r["text"]); print(r["what"]); print(r["observed"]); print(r["expected"]); 
 '''
 
 
+SETTINGS_WORKER = r"""
+import sys, os, json, warnings, locale, decimal
+sys.path.insert(0, %(root)r)
+import numpy as np
+import blackbird
+
+
+def settings():
+    return {"recursion limit": sys.getrecursionlimit(), "numpy error state": repr(sorted(np.geterr().items())), "numpy print options": repr(sorted(np.get_printoptions().items())),
+            "warning filters": len(warnings.filters), "working directory": os.getcwd(), "sys.path": list(sys.path), "locale": repr(locale.getlocale()),
+            "decimal context": repr(decimal.getcontext()), "float repr style": sys.float_repr_style, "int max str digits": sys.get_int_max_str_digits(),
+            "environment size": len(os.environ), "switch interval": sys.getswitchinterval()}
+
+
+scripts = json.loads(sys.stdin.read())
+before = settings()
+out = []
+for name, text in scripts:
+    try:
+        blackbird.loads(text)
+        res = "ok"
+    except RecursionError:
+        res = "RecursionError"
+    except Exception as e:
+        res = type(e).__name__
+    now = settings()
+    diff = {k: [before[k], now[k]] for k in before if before[k] != now[k]}
+    if diff:
+        out.append([name, res, diff])
+        break
+print("RESULT " + json.dumps(out))
+"""
+
+
+def settings_scripts():
+    long_flat = "name long\nversion 1.0\n\n" + "".join("Dgate(%d.5, phi=sin(%d)) | %d\nBSgate(0.25, (1+%d)*2) | [%d, %d]\n" % (k, k, k % 7, k, k % 5, k % 5 + 1) for k in range(160))
+    nested = "name deep\nversion 1.0\n\nDgate(" + "(" * 120 + "1" + ")" * 120 + ") | 0\n"
+    many_vars = "name vars\nversion 1.0\n\n" + "".join("float x%d = %d/7\n" % (k, k) for k in range(120)) + "Dgate(x5, x119) | 0\n"
+    failing = ["name f1\nversion 1.0\n\nDgate(1/0) | 0\n", "name f2\nversion 1.0\n\nDgate(log(0), sqrt(-1)) | 0\nVac | nope\n", "name f3\nversion 1.0\n\nint n = 1+2j\n",
+               "name f4\nversion 1.0\n\nfor int i in 0:3\n    Dgate(1e308*10*i) | i\n", "name f5\nversion 1.0\n\nDgate(((((1) | 0\n"]
+    return [("long flat script", long_flat), ("deeply bracketed expression", nested), ("many variables", many_vars)] + [("failing script %d" % i, t) for i, t in enumerate(failing)] + [
+        ("long flat script again", long_flat + "Vac | nope\n")]
+
+
+def settings_case():
+    """a load leaves the interpreter-wide settings as it found them (recursion limit, NumPy error state and print options,
+    warning filters, working directory, sys.path, locale, decimal context ...): otherwise what a later load can do depends on
+    the earlier one.  One fresh process, a sequence of long / deep / failing scripts, settings compared after every load."""
+    import json
+    import subprocess
+    src = SETTINGS_WORKER % {"root": common.ROOT}
+    p = subprocess.run([common.PY, "-W", "ignore", "-c", src], input=json.dumps(settings_scripts()), capture_output=True, text=True, timeout=600)
+    for line in p.stdout.split("\n"):
+        if line.startswith("RESULT "):
+            res = json.loads(line[7:])
+            if not res:
+                return None
+            name, outcome, diff = res[0]
+            return {"text": "interpreter-wide settings before / after loading: %s (outcome %s)" % (name, outcome), "values": ["settings"], "pre": [],
+                    "what": "a load changes interpreter-wide settings: %s" % ", ".join(sorted(diff)),
+                    "observed": "; ".join("%s: %s -> %s" % (k, str(a)[:80], str(b)[:80]) for k, (a, b) in sorted(diff.items())), "expected": "unchanged"}
+    raise common.HarnessError("settings worker failed: %s" % p.stderr[-300:])
+
+
+def run_settings(_):
+    out = {"spec": ("settings", 0), "result": "holds", "paths": 1, "stats": None, "funcs": [], "reach": 1, "validated": len(settings_scripts()),
+           "text": "interpreter-wide settings are unchanged by loads (long, deep and failing scripts)", "name": "interpreter-wide settings"}
+    r = settings_case()
+    if r:
+        r["symbolic_what"] = r["what"]
+        out.update(result="violation", cex=r)
+    return out
+
+
+REPLAY_SETTINGS = """#!/usr/bin/env python
+import sys; sys.path.insert(0, %(root)r)
+from bbverif.checks import c12
+r = c12.settings_case()
+if r is None:
+    print("settings unchanged"); sys.exit(0)
+print(r["text"]); print(r["what"]); print(r["observed"]); sys.exit(1)
+"""
+
+
 def static_state_scan(rep):
     """module-level mutable state of auxiliary/listener other than the two tables (AST scan, every run)"""
     found = []
@@ -913,10 +997,12 @@ def main():
     tw = twin_specs(t, common.seed())
     tres = U.run_parallel(run_twin, tw)
     native_twins(tres)
-    results = U.run_parallel(run_spec, specs) + U.run_parallel(run_history, list(HISTORIES)) + tres
+    results = U.run_parallel(run_spec, specs) + U.run_parallel(run_history, list(HISTORIES)) + tres + [run_settings(0)]
     rep.bounds["twin loads"] = "%d (script, twin mode) pairs; modes %s" % (len(tw), TWIN_MODES)
 
     def replay_fn(r):
+        if r["spec"][0] == "settings":
+            return REPLAY_SETTINGS % {"root": common.ROOT}
         if r["spec"][0] == "hist":
             return REPLAY_HIST % {"root": common.ROOT, "name": r["spec"][1]}
         if r["spec"][0] == "twin":
